@@ -4,7 +4,6 @@ import (
 	"bytes"
 	"encoding/hex"
 	"encoding/json"
-	"errors"
 	"fmt"
 	"strings"
 	"testing"
@@ -262,10 +261,10 @@ func judgePartial(m ref.Tx, idx, ht int, pre []byte, perr error, sh []byte, herr
 	}
 	if perr != nil || herr != nil {
 		// hashPrevouts cannot be computed: reporting the missing txid is within the statement
-		if errors.Is(perr, bt.ErrEmptyPreviousTxID) && errors.Is(herr, bt.ErrEmptyPreviousTxID) {
+		if perr != nil && herr != nil {
 			return "partial:refused", nil
 		}
-		return "", fmt.Errorf("%s: preimage err=%v, hash err=%v; want either both answers or ErrEmptyPreviousTxID from both", what, perr, herr)
+		return "", fmt.Errorf("%s: preimage err=%v, hash err=%v; want either both answers or an error from both", what, perr, herr)
 	}
 	if len(pre) != len(wantPre) {
 		return "", fmt.Errorf("%s: preimage has %d bytes, the specified layout has %d:\n lib %s", what, len(pre), len(wantPre), clip(pre))
@@ -315,8 +314,8 @@ func checkPartial(ctx *pbt.Ctx, c PartialCase) error {
 				}
 				_, perr := tx.CalcInputPreimage(uint32(idx), sighash.Flag(ht))
 				_, herr := tx.CalcInputSignatureHash(uint32(idx), sighash.Flag(ht))
-				if !errors.Is(perr, bt.ErrInputNoExist) || !errors.Is(herr, bt.ErrInputNoExist) {
-					return fmt.Errorf("transaction decoded from its JSON form without \"hex\" has %d inputs; idx=%d type=0x%02x: preimage err=%v, hash err=%v, want ErrInputNoExist", len(tx.Inputs), idx, ht, perr, herr)
+				if perr == nil || herr == nil {
+					return fmt.Errorf("transaction decoded from its JSON form without \"hex\" has %d inputs; idx=%d type=0x%02x: preimage err=%v, hash err=%v, want an error", len(tx.Inputs), idx, ht, perr, herr)
 				}
 			}
 		}
@@ -349,8 +348,8 @@ func checkPartial(ctx *pbt.Ctx, c PartialCase) error {
 			case idx == n || forms[idx] == "nil":
 				_, perr := tx.CalcInputPreimage(uint32(idx), flag)
 				_, herr := tx.CalcInputSignatureHash(uint32(idx), flag)
-				if !errors.Is(perr, bt.ErrInputNoExist) || !errors.Is(herr, bt.ErrInputNoExist) {
-					return fmt.Errorf("idx=%d of %d slots (forms %v) type=0x%02x: the input is missing; preimage err=%v, hash err=%v, want ErrInputNoExist", idx, n, forms, ht, perr, herr)
+				if perr == nil || herr == nil {
+					return fmt.Errorf("idx=%d of %d slots (forms %v) type=0x%02x: the input is missing; preimage err=%v, hash err=%v, want an error", idx, n, forms, ht, perr, herr)
 				}
 				label = "err_missing_input"
 				if idx < n {
@@ -359,15 +358,15 @@ func checkPartial(ctx *pbt.Ctx, c PartialCase) error {
 			case noTxIDForm(forms[idx]) || c.Scripts[idx] == "nil":
 				noID, noScript := noTxIDForm(forms[idx]), c.Scripts[idx] == "nil"
 				ok := func(e error) bool {
-					return (noID && errors.Is(e, bt.ErrEmptyPreviousTxID)) || (noScript && errors.Is(e, bt.ErrEmptyPreviousTxScript))
+					return e != nil // "is reported as an error": which sentinel, wrapped or not, is not fixed by the statement (benign round 2)
 				}
 				pre, perr := tx.CalcInputPreimage(uint32(idx), flag)
 				sh, herr := tx.CalcInputSignatureHash(uint32(idx), flag)
 				if !ok(perr) {
-					return fmt.Errorf("CalcInputPreimage(idx=%d, type=0x%02x) = (%s, %v) for an input (form %q, previous script %q) with missing txid=%v (PreviousTxID() has %d bytes, nil=%v) / missing previous script=%v; want the matching sentinel error", idx, ht, clip(pre), perr, forms[idx], c.Scripts[idx], noID, len(tx.Inputs[idx].PreviousTxID()), tx.Inputs[idx].PreviousTxID() == nil, noScript)
+					return fmt.Errorf("CalcInputPreimage(idx=%d, type=0x%02x) = (%s, %v) for an input (form %q, previous script %q) with missing txid=%v (PreviousTxID() has %d bytes, nil=%v) / missing previous script=%v; want an error", idx, ht, clip(pre), perr, forms[idx], c.Scripts[idx], noID, len(tx.Inputs[idx].PreviousTxID()), tx.Inputs[idx].PreviousTxID() == nil, noScript)
 				}
 				if !ok(herr) {
-					return fmt.Errorf("CalcInputSignatureHash(idx=%d, type=0x%02x) = (%x, %v) for an input (form %q, previous script %q) with missing txid=%v / missing previous script=%v; want the matching sentinel error", idx, ht, sh, herr, forms[idx], c.Scripts[idx], noID, noScript)
+					return fmt.Errorf("CalcInputSignatureHash(idx=%d, type=0x%02x) = (%x, %v) for an input (form %q, previous script %q) with missing txid=%v / missing previous script=%v; want an error", idx, ht, sh, herr, forms[idx], c.Scripts[idx], noID, noScript)
 				}
 				label = fmt.Sprintf("err:no_txid=%v(%s):no_script=%v", noID, forms[idx], noScript)
 				if !noID {
